@@ -120,7 +120,10 @@ def grep_banned(modules):
 
 def audit(modules, theorems):
     """#print axioms for every registered theorem; returns {theorem: (ok, detail)} and seconds"""
-    src = "".join("import %s\n" % m for m in modules) + "".join("#print axioms %s\n" % t for t in theorems)
+    # a module that did not build has no object file: importing it would make EVERY theorem of the property "not checked"; leave it out, so
+    # that only its own theorems are reported (as unknown constants) and the others are still audited
+    unbuilt = [m for m in modules if not os.path.exists(os.path.join(LEAN, ".lake", "build", "lib", "lean", m.replace(".", "/") + ".olean"))]
+    src = "".join("import %s\n" % m for m in modules if m not in unbuilt) + "".join("#print axioms %s\n" % t for t in theorems)
     path = os.path.join(LEAN, ".lake", "audit_%d.lean" % os.getpid())
     os.makedirs(os.path.dirname(path), exist_ok=True)
     open(path, "w").write(src)
@@ -141,7 +144,8 @@ def audit(modules, theorems):
             res[t] = (True, "axioms: none")
         else:
             err = [l for l in text.split("\n") if "error" in l][:3]
-            res[t] = (False, "not checked: " + " | ".join(err)[:300])
+            res[t] = (False, "not checked: " + (" | ".join(e for e in err if t in e) or " | ".join(err))[:300] +
+                      (" (module(s) that did not build: %s)" % ", ".join(unbuilt) if unbuilt else ""))
     return res, dt
 
 
